@@ -745,9 +745,21 @@ def case_root(box, res, i):
     inp = box.dir + "/input"
     with open(inp, "wb") as f:
         f.write(b"UIDL\r\nDELE 1\r\nRETR 2\r\nQUIT\r\n")
+    # plain root, or real (and saved) uid 0 behind another effective uid: a process that can take root back at any moment
+    masked = i % 2 == 1
+    kw = {}
+    if masked:
+        uid, gid = box.uid, box.gid
+
+        def pre():
+            os.setgroups([])
+            os.setgid(gid)
+            os.setresuid(0, uid, 0)
+        kw["preexec_fn"] = pre
     with open(inp, "rb") as fin:
-        rc, out, err = core.run_with_watchdog([box.pop3d, box.md], 60, env=box.env(), stdin=fin)
-    wit = {"case": {"kind": "root", "index": i}, "rc": rc, "stdout": core.hx(out[:200]), "stderr": core.hx(err[-200:])}
+        rc, out, err = core.run_with_watchdog([box.pop3d, box.md], 60, env=box.env(), stdin=fin, **kw)
+    wit = {"case": {"kind": "root", "index": i}, "rc": rc, "stdout": core.hx(out[:200]), "stderr": core.hx(err[-200:]),
+           "uids": "real 0, effective %d, saved 0" % box.uid if masked else "0/0/0"}
     if rc is None:
         res.inconclusive.append("qmail-pop3d (root) watchdog")
         return
@@ -756,7 +768,7 @@ def case_root(box, res, i):
         return
     j = Judge(res, wit)
     if rc != 1 or b"+OK" in out:
-        j.violate("C19/root-not-refused", "qmail-pop3d invoked with uid 0 must exit 1 without serving (qmail-pop3d(8))")
+        j.violate("C19/root-not-refused" + ("/effective-uid-masked" if masked else ""), "qmail-pop3d invoked with uid 0 must exit 1 without serving (qmail-pop3d(8))")
         return
     sess = pm.Session(msgs)
     j.final_state(sess, box.md, False)
